@@ -437,7 +437,12 @@ fn run(c: &Case, obs: &mut Obs) -> Result<(), Violation> {
             match parse_field(&r.to_string(), false) {
                 // what wrap_and_sort does to the content is C13 (not claimed): only a readable result is used
                 Some(m) if impl_structure(&r) == model_structure(&m) => (r, m),
-                _ => {
+                // the tree wrap_and_sort hands out must at least agree with its own text, or every later edit
+                // through it works on a different field than the one printed
+                Some(m) => {
+                    return Err(v("model-handle", "wrap_and_sort", "start-state", format!("wrap_and_sort of {:?} prints {:?} = {:?} but the live tree reports {:?}", c.init, r.to_string(), model_structure(&m), impl_structure(&r))));
+                }
+                None => {
                     obs.count("reach.init_rejected_or_misread");
                     return Ok(());
                 }
